@@ -2,6 +2,7 @@ package pipe
 
 import (
 	"bytes"
+	"context"
 	"crypto/tls"
 	"errors"
 	"fmt"
@@ -298,6 +299,7 @@ func (h *harness) OnPacketsLost(_ *gortsplib.ServerHandlerOnPacketsLostCtx) {}
 func (h *harness) start() error {
 	sc := h.sc
 	h.ns = newNetState(&h.clock)
+	h.ns.tls = sc.TLS
 	h.sessRdr = map[*gortsplib.ServerSession]*reader{}
 	h.pubClosed = make(chan struct{})
 	for m, pts := range sc.Medias {
@@ -968,6 +970,15 @@ func (h *harness) startPublisher() error {
 		OnDecodeError:            func(err error) { h.note("publisher decode error: %v", err) },
 		OnPacketsLost:            func(uint64) {},
 	}
+	if !sc.TLS {
+		c.DialContext = func(ctx context.Context, network, address string) (net.Conn, error) {
+			nc, err := (&net.Dialer{}).DialContext(ctx, network, address)
+			if err != nil {
+				return nil, err
+			}
+			return &cliConn{Conn: nc, ns: h.ns}, nil
+		}
+	}
 	if sc.Relay == "udp" {
 		c.Protocol = new(gortsplib.ProtocolUDP)
 		c.ListenPacket = func(network, address string) (net.PacketConn, error) {
@@ -1060,7 +1071,9 @@ func (h *harness) publishAll() {
 			h.pubOut[wid] = 'f'
 		default:
 			h.pubOut[wid] = 'e'
-			h.note("publisher write %d: %v", wid, err)
+			if !p.mayErr {
+				h.note("publisher write %d: %v", wid, err)
+			}
 		}
 		h.progress.Store(int64(wid + 1))
 		h.pace(wid)
